@@ -95,7 +95,10 @@ def encode_map(kind, b):
 def start_block(kind, origin, world, rng):
     """returns (block, model map, model items)"""
     n0 = rng.choice([0, 1, 2, 3])
-    chans = rng.sample([0, 1, 2, 3, 7, 9], n0)
+    pool = [0, 1, 2, 3, 7, 9]
+    if rng.random() < 0.2:            # maps that already hold the highest / lowest channel the 16-bit field can store
+        pool = pool[:3] + list(edge_channels(kind)[:3])
+    chans = rng.sample(pool, n0)
     items = [world.item(rng.choice(["a", "b", "a", ""]), rng.randrange(3)) for _ in range(n0)]
     b = new_block(kind)
     if origin == "new":
@@ -120,6 +123,24 @@ def start_block(kind, origin, world, rng):
     return o2, list(chans), [m for _, m in items]
 
 
+LO = {"EM": -32768, "PC": -32768, "PD": 0}
+HI = {"EM": 32767, "PC": 32767, "PD": 65535}
+
+
+def edge_channels(kind):
+    """(in range..., out of range...) around the ends of the 16-bit channel field: int16 for EMG and platform
+    calibration, uint16 for platform data"""
+    if kind == "PD":
+        return (65535, 65534, 32768, 65536, -1, 70000)
+    return (32767, 32766, -32768, 32768, -32769, 40000)
+
+
+def pick_channel(kind, rng, cur_map):
+    if rng.random() < 0.15:
+        return rng.choice(edge_channels(kind))
+    return rng.choice([0, 1, 2, 3, 7, 9] + (cur_map[:2] if cur_map else []))
+
+
 def gen_call(kind, world, rng, cur_map, cur_items):
     """returns (model call(s), thunk builder)"""
     r = rng.random()
@@ -129,8 +150,7 @@ def gen_call(kind, world, rng, cur_map, cur_items):
         return ("add_auto", o, m, None)
     if r < 0.55:
         o, m = world.item(lab, rng.randrange(3))
-        c = rng.choice([0, 1, 2, 3, 7, 9] + (cur_map[:2] if cur_map else []))
-        return ("add_explicit", o, m, c)
+        return ("add_explicit", o, m, pick_channel(kind, rng, cur_map))
     if r < 0.60:
         o, m = world.other()
         return ("add_auto", o, m, None) if rng.random() < 0.5 else ("add_explicit", o, m, 5)
@@ -151,9 +171,9 @@ def gen_call(kind, world, rng, cur_map, cur_items):
         if objs and rng.random() < 0.25:
             objs[rng.randrange(len(objs))] = world.other()          # an element of the wrong kind inside a bulk call
         if q < 0.8:
-            chs = None if rng.random() < 0.5 else [rng.choice([0, 1, 2, 3, 7, 9]) for _ in range(k)]
+            chs = None if rng.random() < 0.5 else [pick_channel(kind, rng, []) for _ in range(k)]
             return ("add_many", objs, chs)
-        return ("assign_pairs", objs, [rng.choice([0, 1, 2, 3, 7]) for _ in range(k)])
+        return ("assign_pairs", objs, [pick_channel(kind, rng, []) for _ in range(k)])
     k = rng.randrange(0, 4)
     objs = [world.item("", rng.randrange(3)) for _ in range(k)]
     if objs and rng.random() < 0.35:
@@ -217,7 +237,7 @@ def label_of(call):
     return "%s(%r)" % (n, call[1])
 
 
-def one_sequence(chk, rng, kind, origin, length, idx):
+def one_sequence(chk, rng, kind, origin, length, idx, script=None):
     global WORLD
     world = World(kind)
     WORLD = world
@@ -237,7 +257,7 @@ def one_sequence(chk, rng, kind, origin, length, idx):
         given[id(it)] = c
     for j in range(length):
         cmap, citems, _ = state_of(kind, b)
-        call = gen_call(kind, world, rng, cmap, citems)
+        call = script[j](world) if script else gen_call(kind, world, rng, cmap, citems)
         what["calls"].append(label_of(call))
         before = (list(cmap), [id(x) for x in citems])
         mcs, exc = perform(kind, b, call)
@@ -248,6 +268,13 @@ def one_sequence(chk, rng, kind, origin, length, idx):
             if call[3] in before[0]:
                 if exc != "ValueError":
                     found = "explicit channel %d is taken but the add %s" % (call[3], "succeeded" if exc is None else "raised " + exc)
+                elif (cmap2, [id(x) for x in citems2]) != before:
+                    found = "a refused add changed the block"
+            elif not (LO[kind] <= call[3] <= HI[kind]):
+                if exc is None:
+                    found = "channel %d does not fit the 16-bit channel map, yet the add succeeded" % call[3]
+                elif exc != "ValueError":
+                    found = "channel %d does not fit the 16-bit channel map: raised %s, not ValueError" % (call[3], exc)
                 elif (cmap2, [id(x) for x in citems2]) != before:
                     found = "a refused add changed the block"
             elif exc is not None:
@@ -286,7 +313,7 @@ def aligned_violation(kind, b, world, before, given):
         n, m, o2, nwritten, nbytes = encode_map(kind, b)
     except Exception as e:
         return "the block cannot be encoded and decoded: %s" % common.exc_info(e)
-    if n != len(citems) or m != [c % 65536 if kind == "PD" else c for c in cmap]:
+    if n != len(citems) or m != list(cmap):
         return "encoding declares %d items with channels %r, the block holds %d with %r" % (n, m, len(citems), cmap)
     if nwritten != nbytes:
         return "nBytes %d but %d bytes written" % (nbytes, nwritten)
@@ -304,9 +331,24 @@ def run(chk):
               ("PC", "decoded"), ("PD", "new"), ("PD", "filled"), ("PD", "decoded")]
     chk.rule = ("edit sequences of 1-6 calls on EMG, platform-calibration and platform-data blocks starting empty, "
                 "constructor-filled, filled through the API, or decoded from bytes: add with automatic / explicit channel (free, "
-                "taken), add of a non-item, remove by label / index (-n-2..n+2) / item (present, absent), add_platforms with and "
+                "taken, at and beyond both ends of the 16-bit channel field), add of a non-item, remove by label / index (-n-2..n+2) / item (present, absent), add_platforms with and "
                 "without channels, the two `platforms = ...` setters; after EVERY call: both lists, the (channel, item) view, the "
                 "channel map parsed from the encoded bytes, nBytes, and the decode of the encoding; non-trivial = >= 2 calls")
+    # scripted: both ends of the 16-bit channel field, explicit and automatic
+    def ex(c):
+        return lambda w: ("add_explicit",) + w.item("e", 1) + (c,)
+
+    def au():
+        return lambda w: ("add_auto",) + w.item("u", 2) + (None,)
+    for kind in ("EM", "PC", "PD"):
+        lo, hi = LO[kind], HI[kind]
+        for script in ([ex(hi), au(), au(), ex(hi)], [ex(hi - 1), au(), au()], [ex(hi + 1), au()], [ex(lo), au(), ex(lo)],
+                       [ex(lo - 1), au()], [ex(0), ex(hi), ex(1), au(), au()], [ex(lo), ex(-1) if lo < 0 else ex(5), au()]):
+            r = one_sequence(chk, rng, kind, "new", len(script), -1, script=script)
+            chk.note_case((kind, "scripted", len(jobs)), True)
+            chk.count("%s scripted ends of the channel range" % kind)
+            if r:
+                jobs.append(r)
     for i in range(n):
         kind, origin = combos[i % len(combos)]
         length = rng.choice([1, 2, 2, 3, 3, 4, 6])
